@@ -710,3 +710,15 @@ func traceFilledBy(s *Sources, buf ssa.Value, depth int, seen map[ssa.Value]bool
 		}
 	}
 }
+
+// SliceReachesPred reports whether the backward slice of `from` contains a value satisfying pred.
+func SliceReachesPred(from ssa.Value, pred func(ssa.Value) bool, depth int) bool {
+	seen := map[ssa.Value]bool{}
+	traceInto(newSources(), from, depth, seen)
+	for v := range seen {
+		if pred(v) {
+			return true
+		}
+	}
+	return false
+}
